@@ -1274,7 +1274,8 @@ void h_doDeserialize_order(void) {
  * Oracle (C04): "copies are deep and independent of their source": afterwards the destination denotes the same value, owns
  * its own storage for it (its own string node / extension slot), the source is untouched; C05: a failed allocation gives false,
  * overflowed() and a null destination; C06: ledger.
- * The two F13 obligations (source living in the destination) run the same real code. */
+ * (The F13 family -- source living in the destination -- is pinned modularly by facade_doc_copy/doc_set_itself and
+ * doc_set_own_descendant; run on this real code both reproduce natively: null document / heap-use-after-free.) */
 #ifdef U_DEEPCOPY
 typedef struct JsonDocument Doc;
 #ifndef VERIF_NATIVE
@@ -1380,58 +1381,6 @@ void h_deepcopy_leaf(void) {
   g_expected_allocator = ae;
   JsonDocument__dtor(e);
   CHECK(g_live_blocks == 0, "C06: both destroyed: no block remains");
-}
-
-/* F13 family, real code.  doc.set(doc): a document assigned to itself must stay what it is. */
-void h_real_set_itself(void) {
-  alloc_reset();
-  struct Allocator *a = verif_allocator(0);
-  g_expected_allocator = a;
-  g_alloc_may_fail = 0;
-  static Doc s_d;
-  Doc *d = &s_d;
-  JsonDocument__ctor__Allocator_p(d, a);
-  _Bool v = in_bool();
-  d->data_.type_ = 0x06;
-  d->data_.content_.asBoolean = v;
-  _Bool r = JsonDocument__set(d, d);
-  COVER(v); COVER(!v);
-#ifdef CANARY_REAL_SET_ITSELF
-  CHECK(r && !v, "set() succeeds");
-#else
-  CHECK(r, "set() succeeds");
-#endif
-  CHECK(d->data_.type_ == 0x06 && d->data_.content_.asBoolean == v, "C04: doc.set(doc) leaves the document denoting the value it denoted (a copy reads its source before the destination is cleared)");
-  JsonDocument__dtor(d);
-}
-/* JsonVariantConst v = doc[0]; doc.set(v): the document must become that value. */
-void h_real_set_own_descendant(void) {
-  alloc_reset();
-  struct Allocator *a = verif_allocator(0);
-  g_expected_allocator = a;
-  g_alloc_may_fail = 0;
-  static Doc s_d;
-  Doc *d = &s_d;
-  JsonDocument__ctor__Allocator_p(d, a);
-  struct Slot_VariantData s = ResourceManager__allocVariant(&d->resources_); /* the document [true] / [false] */
-  _Bool v = in_bool();
-  s.ptr_->type_ = 0x06;
-  s.ptr_->content_.asBoolean = v;
-  d->data_.type_ = 0x40;
-  d->data_.content_.asCollection.head_ = s.id_;
-  d->data_.content_.asCollection.tail_ = s.id_;
-  struct JsonVariantConst src;
-  src.data_ = s.ptr_;
-  src.resources_ = &d->resources_;
-  _Bool r = JsonDocument__set_JsonVariantConst(d, &src);
-  COVER(v); COVER(!v);
-#ifdef CANARY_REAL_SET_OWN
-  CHECK(r && !v, "set() succeeds");
-#else
-  CHECK(r, "set() succeeds");
-#endif
-  CHECK(d->data_.type_ == 0x06 && d->data_.content_.asBoolean == v, "C04: assigning a document one of its own descendants makes it denote that value (the source must be read before the destination's pools are released)");
-  JsonDocument__dtor(d);
 }
 
 /* ---- value-level copies inside ONE document: copyVariant(dst, src) (JsonVariant::set(JsonVariantConst), doc["a"].set(doc["b"]))
@@ -1600,90 +1549,258 @@ void h_variant_set_other_value(void) {
 #endif /* U_DEEPCOPY */
 
 /* =============================================================================================================================
- * unit facade_deepcopy_tree (class B shapes): the REAL deep copy of a container through JsonDocument::set(const JsonDocument&):
- * Converter<JsonArrayConst>::toJson -> JsonArray::set -> add(JsonVariantConst) -> copyVariant (recursion), everything real
- * down to the allocator stub.  Source: an array of <= 2 elements, each a boolean, a 32-bit integer or an EMPTY nested array,
- * built in another document with real slot allocations.  Oracle (C04 "copies are deep and independent of their source"): the
- * destination is a list of its OWN slots holding the same values in the same order; the source is untouched; C05: when an
- * allocation fails set() returns false, overflowed() is raised and the destination is a valid PREFIX of the source; C06 ledger. */
-#ifdef U_DEEPCOPY_TREE
+ * unit facade_copy_containers (modular, class B: source containers of <= CN elements / members): the container branches of the
+ * deep copy -- VariantRefBase<JsonVariant>::set<JsonArrayConst> / set<JsonObjectConst> -> Converter<...>::toJson -> to<JsonArray>()
+ * / to<JsonObject>() -> JsonArray::set / JsonObject::set -- with the per-element step as a contract stub:
+ *   JsonArray::add(JsonVariantConst)  = ArrayData::addValue [proved: coll_array/addValue]: appends a slot holding a deep copy of
+ *       the element, or releases the slot, reports false and raises overflowed when an allocation fails;
+ *   MemberProxy<JsonObject,JsonString>::set(JsonVariantConst) = getOrAddMember + copy [coll_object/getOrAddMember_le2,
+ *       addMember_*]: upserts the member with a deep copy of the value, false + overflowed on failure.
+ * The copy of an element is the deep copy one level down (this same contract: induction on the depth of the source, L-C04).
+ * Decided here: the destination is first made an EMPTY container of the right kind, the elements/members are offered to the
+ * step exactly once each, in source order, with the source's own (data, manager) pairs, the loop stops at the first failure,
+ * the source is never written.  The whole-tree copy with every callee real was tried (arrays of <= 2 scalars) and is out of
+ * reach of symbolic execution here: the visitor dispatch is re-explored at every recursion level on heap-allocated slots. */
+#ifdef U_COPY_CONTAINERS
+#define CN 3
 typedef struct JsonDocument Doc;
-#ifndef VERIF_NATIVE
-struct Allocator *DefaultAllocator__instance(void) { return verif_allocator(3); }
-_Bool VariantRefBase_JsonVariant__set_JsonObjectConst(struct VariantRefBase_JsonVariant *self, struct JsonObjectConst *value) { CHECK(0, "array scenario: the object copy is not reached"); return 0; }
-#endif
-#define TN 2
-void h_deepcopy_array(void) {
-  alloc_reset();
-  g_expected_allocator = 0;
-  struct Allocator *ad = verif_allocator(0), *ae = verif_allocator(1);
-  static Doc s_d, s_e;
-  Doc *d = &s_d, *e = &s_e;
-  JsonDocument__ctor__Allocator_p(d, ad);
-  JsonDocument__ctor__Allocator_p(e, ae);
-  unsigned n = in_u8();
-  __CPROVER_assume(n <= TN);
-  unsigned kind[TN]; uint32_t val[TN]; VD *el[TN]; unsigned id[TN];
-  g_alloc_may_fail = 0; /* the SOURCE is built without faults */
-  e->data_.type_ = 0x40;
-  e->data_.content_.asCollection.head_ = (__typeof__(e->data_.content_.asCollection.head_))CFG_NULL_SLOT;
-  e->data_.content_.asCollection.tail_ = (__typeof__(e->data_.content_.asCollection.tail_))CFG_NULL_SLOT;
-  for (unsigned i = 0; i < TN; i++) {
-    kind[i] = in_u8(); val[i] = in_u32(); el[i] = 0; id[i] = 0;
-    __CPROVER_assume(kind[i] == 6 || kind[i] == 0x0C || kind[i] == 0x40);
-    if (i < n) {
-      struct Slot_VariantData s = ResourceManager__allocVariant(&e->resources_);
-      el[i] = s.ptr_; id[i] = s.id_;
-      s.ptr_->type_ = (unsigned char)kind[i];
-      if (kind[i] == 6) s.ptr_->content_.asBoolean = (val[i] & 1) != 0;
-      else if (kind[i] == 0x0C) s.ptr_->content_.asInt32 = (int32_t)val[i];
-      else { s.ptr_->content_.asCollection.head_ = (__typeof__(s.ptr_->content_.asCollection.head_))CFG_NULL_SLOT; s.ptr_->content_.asCollection.tail_ = (__typeof__(s.ptr_->content_.asCollection.tail_))CFG_NULL_SLOT; }
-      if (i == 0) e->data_.content_.asCollection.head_ = s.id_; else el[i - 1]->next_ = s.id_;
-      e->data_.content_.asCollection.tail_ = s.id_;
-    }
-  }
-  g_alloc_may_fail = 1;
-  Doc e0 = *e;
-  VD el0[TN];
-  for (unsigned i = 0; i < TN; i++) if (i < n) el0[i] = *el[i];
-  int live_src = g_live_blocks;
-  unsigned fails0 = g_alloc_failures;
-  g_expected_allocator = ad;
-  _Bool r = JsonDocument__set(d, e);
-  COVER(r && n == 2 && kind[0] == 6 && kind[1] == 0x0C); COVER(r && n == 0); COVER(!r && n == 2); COVER(r && n == 2 && kind[1] == 0x40);
-  CHECK(r == (g_alloc_failures == fails0), "C05: set() reports failure exactly when an allocation failed");
-  CHECK(r || d->resources_.overflowed_, "C05: a failed copy is reported by overflowed()");
-  CHECK(d->data_.type_ == 0x40, "C04: the copy of an array is an array");
-  /* walk the destination list: a prefix of the source (the whole of it on success), in its own slots */
-  unsigned cur = d->data_.content_.asCollection.head_, cnt = 0, last = (unsigned)CFG_NULL_SLOT;
-  _Bool same = 1, own = 1;
-  for (unsigned i = 0; i < TN; i++) {
-    if ((uint64_t)cur != CFG_NULL_SLOT) {
-      VD *x = ResourceManager__getVariant(&d->resources_, (__typeof__(d->data_.next_))cur);
-      if (i >= n) { same = 0; break; }
-      if (x == el[i]) own = 0;
-      if (x->type_ != kind[i]) same = 0;
-      else if (kind[i] == 6 && x->content_.asBoolean != ((val[i] & 1) != 0)) same = 0;
-      else if (kind[i] == 0x0C && x->content_.asInt32 != (int32_t)val[i]) same = 0;
-      else if (kind[i] == 0x40 && !((uint64_t)x->content_.asCollection.head_ == CFG_NULL_SLOT && (uint64_t)x->content_.asCollection.tail_ == CFG_NULL_SLOT)) same = 0;
-      last = cur; cnt++; cur = x->next_;
-    }
-  }
-  CHECK((uint64_t)cur == CFG_NULL_SLOT && (uint64_t)d->data_.content_.asCollection.tail_ == (cnt ? (uint64_t)last : CFG_NULL_SLOT), "C04/C05: the destination is a well-formed list (terminated, tail_ is its last slot)");
-#ifdef CANARY_DEEPCOPY_ARRAY
-  CHECK(same && !(n == 2 && kind[1] == 6), "C04: the destination holds the same values in the same order (all of them on success, a prefix after a failure)");
-#else
-  CHECK(same, "C04: the destination holds the same values in the same order (all of them on success, a prefix after a failure)");
-#endif
-  CHECK(!r || cnt == n, "C04: on success every element was copied");
-  CHECK(own, "C04: the copy lives in the destination's own slots (deep, independent of the source)");
-  _Bool src_same = vd_same(&e->data_, &e0.data_);
-  for (unsigned i = 0; i < TN; i++) if (i < n && !vd_same(el[i], &el0[i])) src_same = 0;
-  CHECK(src_same && e->resources_.variantPools_.count_ == e0.resources_.variantPools_.count_ && !e->resources_.overflowed_, "C04: the source document is untouched");
-  JsonDocument__dtor(d);
-  CHECK(g_live_blocks == live_src, "C06: destroying the copy returns exactly what the copy requested");
-  g_expected_allocator = ae;
-  JsonDocument__dtor(e);
-  CHECK(g_live_blocks == 0, "C06: both destroyed: no block remains");
+static RM *g_dst_rm, *g_src_rm;
+static VD *g_dst_root;
+static unsigned g_step_calls, g_fail_at;
+static VD *g_step_val[CN + 1];
+static const char *g_step_key[CN + 1];
+static unsigned long g_step_keylen[CN + 1];
+static _Bool g_step_ok, g_dst_was_empty_container;
+static unsigned g_cclear_calls, g_vclear_calls;
+/* contract of VariantData::clear(ResourceManager*) [coll_variant/vclear] and CollectionData::clear [coll_loops/clear_anylen]: release
+ * what the value / list owns; the destination value here is a fresh null root and the new container is empty: nothing to release */
+void VariantData__clear__ResourceManager_p(VD *self, RM *resources) {
+  g_vclear_calls++;
+  CHECK(self == g_dst_root && resources == g_dst_rm, "only the destination value is cleared");
+  self->type_ = 0;
 }
-#endif /* U_DEEPCOPY_TREE */
+void CollectionData__clear__ResourceManager_p(struct CollectionData *self, RM *resources) {
+  g_cclear_calls++;
+  CHECK(self == &g_dst_root->content_.asCollection && resources == g_dst_rm && (uint64_t)self->head_ == CFG_NULL_SLOT, "only the destination's new, still empty container is cleared");
+  self->head_ = (__typeof__(self->head_))CFG_NULL_SLOT; self->tail_ = (__typeof__(self->tail_))CFG_NULL_SLOT;
+}
+static _Bool step(VD *dst_container, RM *dst_rm, struct JsonVariantConst *value, const char *key, unsigned long keylen, unsigned want_type) {
+  if (g_step_calls == 0) g_dst_was_empty_container = g_dst_root->type_ == want_type && (uint64_t)g_dst_root->content_.asCollection.head_ == CFG_NULL_SLOT && (uint64_t)g_dst_root->content_.asCollection.tail_ == CFG_NULL_SLOT;
+  if (dst_container != g_dst_root || dst_rm != g_dst_rm || value->resources_ != g_src_rm) g_step_ok = 0;
+  if (g_step_calls < CN + 1) { g_step_val[g_step_calls] = value->data_; g_step_key[g_step_calls] = key; g_step_keylen[g_step_calls] = keylen; }
+  g_step_calls++;
+  if (g_step_calls == g_fail_at) { dst_rm->overflowed_ = 1; return 0; } /* an allocation failed in this step */
+  return 1;
+}
+_Bool JsonArray__add_JsonVariantConst(struct JsonArray *self, struct JsonVariantConst *value) {
+  return step((VD *)self->data_, self->resources_, value, 0, 0, 0x40);
+}
+_Bool VariantRefBase_MemberProxy_JsonObject_JsonString__set_JsonVariantConst(struct VariantRefBase_MemberProxy_JsonObject_JsonString *self, struct JsonVariantConst *value) {
+  struct MemberProxy_JsonObject_JsonString *mp = (struct MemberProxy_JsonObject_JsonString *)self;
+  return step((VD *)mp->upstream_.data_, mp->upstream_.resources_, value, mp->key_.data_, mp->key_.size_, 0x20);
+}
+#ifndef SCEN_OBJECT
+#define SCEN_OBJECT 0
+#endif
+void h_copy_container(void) {
+  alloc_reset();
+  g_step_calls = 0; g_step_ok = 1; g_dst_was_empty_container = 0; g_cclear_calls = g_vclear_calls = 0;
+  for (unsigned i = 0; i < CN + 1; i++) { g_step_val[i] = 0; g_step_key[i] = 0; g_step_keylen[i] = 0; }
+  static RM s_drm, s_srm;
+  static VD s_droot, s_sroot;
+  static SlotData s_pool[2 * CN];      /* the source's pool: a named array (see the note on named objects) */
+  static const char keys[CN][2] = {{'a', 0}, {'b', 0}, {'c', 0}};
+  g_dst_rm = &s_drm; g_src_rm = &s_srm; g_dst_root = &s_droot;
+  /* destination: a document whose root is null (what JsonDocument::to<JsonVariant>() leaves); source: a container of n items */
+  s_drm.allocator_ = verif_allocator(0); s_drm.overflowed_ = 0; s_drm.stringPool_.strings_ = 0;
+  s_drm.variantPools_.pools_ = s_drm.variantPools_.preallocatedPools_; s_drm.variantPools_.count_ = 0;
+  s_drm.variantPools_.capacity_ = (__typeof__(s_drm.variantPools_.capacity_))CFG_INITIAL; s_drm.variantPools_.freeList_ = (__typeof__(s_drm.variantPools_.freeList_))CFG_NULL_SLOT;
+  s_droot.type_ = 0; s_droot.next_ = (__typeof__(s_droot.next_))CFG_NULL_SLOT;
+  s_srm = s_drm;
+  s_srm.allocator_ = verif_allocator(1);
+  s_srm.variantPools_.pools_ = s_srm.variantPools_.preallocatedPools_;
+  unsigned n = in_u8();
+  __CPROVER_assume(n <= CN);
+  unsigned slots = SCEN_OBJECT ? 2 * n : n;
+  s_srm.variantPools_.count_ = 1;
+  s_srm.variantPools_.preallocatedPools_[0].slots_ = s_pool;
+  s_srm.variantPools_.preallocatedPools_[0].capacity_ = 2 * CN;
+  s_srm.variantPools_.preallocatedPools_[0].usage_ = (__typeof__(s_srm.variantPools_.preallocatedPools_[0].usage_))slots;
+  for (unsigned i = 0; i < 2 * CN; i++) {
+    vd_havoc(&s_pool[i].variant);
+    s_pool[i].variant.next_ = (__typeof__(s_pool[i].variant.next_))(i + 1 < slots ? i + 1 : (unsigned)CFG_NULL_SLOT);
+    if (SCEN_OBJECT && (i % 2) == 0) { s_pool[i].variant.type_ = 4; s_pool[i].variant.content_.asLinkedString = (void *)keys[(i / 2) % CN]; } /* a key: a linked string */
+  }
+  s_sroot.type_ = SCEN_OBJECT ? 0x20 : 0x40;
+  s_sroot.content_.asCollection.head_ = (__typeof__(s_sroot.content_.asCollection.head_))(slots ? 0 : (unsigned)CFG_NULL_SLOT);
+  s_sroot.content_.asCollection.tail_ = (__typeof__(s_sroot.content_.asCollection.tail_))(slots ? slots - 1 : (unsigned)CFG_NULL_SLOT);
+  s_sroot.next_ = (__typeof__(s_sroot.next_))CFG_NULL_SLOT;
+  SlotData pool0[2 * CN];
+  for (unsigned i = 0; i < 2 * CN; i++) pool0[i] = s_pool[i];
+  VD sroot0 = s_sroot;
+  g_fail_at = in_u8(); /* the step that fails (0 or > n: none) */
+  struct JsonVariant dst; dst.data_ = &s_droot; dst.resources_ = &s_drm;
+  _Bool r;
+#if SCEN_OBJECT
+  struct JsonObjectConst src; src.data_ = (struct ObjectData *)&s_sroot.content_.asObject; src.resources_ = &s_srm;
+  r = VariantRefBase_JsonVariant__set_JsonObjectConst((struct VariantRefBase_JsonVariant *)&dst, &src);
+#else
+  struct JsonArrayConst src; src.data_ = (struct ArrayData *)&s_sroot.content_.asArray; src.resources_ = &s_srm;
+  r = VariantRefBase_JsonVariant__set_JsonArrayConst((struct VariantRefBase_JsonVariant *)&dst, &src);
+#endif
+  _Bool failed = g_fail_at >= 1 && g_fail_at <= n;
+  unsigned want_calls = failed ? g_fail_at : n;
+  COVER(n == CN && !failed); COVER(n == CN && g_fail_at == 2); COVER(n == 0); COVER(n == 1 && g_fail_at == 1);
+  CHECK(s_droot.type_ == (SCEN_OBJECT ? 0x20 : 0x40), "C04: the copy of an array is an array, of an object an object");
+  CHECK(n == 0 || g_dst_was_empty_container, "C04: the destination is made an EMPTY container of that kind before the first element is copied (nothing of its former value survives)");
+#ifdef CANARY_COPY_CONTAINER
+  CHECK(g_step_calls == want_calls + (n == 2), "C04/C05: every element is offered to the copy step exactly once, and none after the first failure");
+#else
+  CHECK(g_step_calls == want_calls && g_step_ok, "C04/C05: every element is offered to the copy step exactly once, and none after the first failure");
+#endif
+  for (unsigned i = 0; i < CN; i++) if (i < want_calls) {
+    CHECK(g_step_val[i] == &s_pool[SCEN_OBJECT ? 2 * i + 1 : i].variant, "C04: ... in source order, as (value of the source's own slot, source's manager)");
+    if (SCEN_OBJECT) CHECK(g_step_key[i] == keys[i] && g_step_keylen[i] == 1, "C04: each member is copied under its own key (pointer and length of the source's key string)");
+  }
+  CHECK(r == !failed && s_drm.overflowed_ == failed, "C05: set() reports false exactly when a step failed (overflowed)");
+  _Bool same = vd_same(&s_sroot, &sroot0);
+  for (unsigned i = 0; i < 2 * CN; i++) if (!vd_same(&s_pool[i].variant, &pool0[i].variant)) same = 0;
+  CHECK(same && s_srm.variantPools_.preallocatedPools_[0].usage_ == slots && !s_srm.overflowed_, "C04: the source is never written");
+  CHECK(g_alloc_calls + g_dealloc_calls + g_realloc_calls == 0, "the container loops themselves never call the allocator");
+}
+#endif /* U_COPY_CONTAINERS */
+
+/* =============================================================================================================================
+ * unit facade_setstring_alias (modular): VariantData::setString(var, value, resources) -- the static form used by
+ * Converter<JsonString>/Converter<const char*>::toJson -- when `value` is a COPIED string whose bytes are the value's own string
+ * node (doc["b"] = JsonString(doc["b"].as<const char*>(), JsonString::Copied)).  Real: VariantData::clear, ResourceManager::
+ * dereferenceString, StringPool::dereference, StringNode::destroy.  ResourceManager::saveString<JsonStringAdapter> is a contract
+ * stub [proved: rm_strings/rm_string_entry_points over strpool_add/pool_add_str]: it READS the bytes it is given, so they must
+ * still be alive (ghost flag set by the allocator hook when the watched node is handed to free()). */
+#ifdef U_SETSTRING_ALIAS
+#ifndef SCEN_OWN
+#define SCEN_OWN 0
+#endif
+#define DATA_OFF ((size_t)offsetof(Node, data))
+static unsigned g_save_calls;
+static struct JsonStringAdapter g_save_arg;
+static Node *g_save_result;
+static RM *g_the_rm;
+Node *ResourceManager__saveString_JsonStringAdapter(RM *self, struct JsonStringAdapter str) {
+  g_save_calls++;
+  g_save_arg = str;
+  CHECK(self == g_the_rm, "the string is saved in the value's own document");
+#ifdef CANARY_SETSTRING_ALIAS
+  CHECK(!g_watch_freed && str._b_SizedRamString.size_ != 1, "C14/C04: the source string is not released before it is copied (a pointer into the value's own string)");
+#else
+  CHECK(!g_watch_freed, "C14/C04: the source string is not released before it is copied (a pointer into the value's own string)");
+#endif
+  if (g_watch_freed) return 0; /* (the bytes are gone: nothing is read) */
+  /* effect: a node holding a copy of the bytes, pooled (a fresh one here; dedup is strpool_add's business) */
+  _Bool mf = g_alloc_may_fail;
+  Node *n = (Node *)Allocator__allocate(self->allocator_, DATA_OFF + str._b_SizedRamString.size_ + 1);
+  if (!n) { self->overflowed_ = 1; return 0; }
+  n->references = 1; n->length = (__typeof__(n->length))str._b_SizedRamString.size_;
+  for (unsigned i = 0; i < 2; i++) if (i < str._b_SizedRamString.size_) n->data[i] = str._b_SizedRamString.str_[i];
+  n->data[str._b_SizedRamString.size_] = 0;
+  n->next = self->stringPool_.strings_; self->stringPool_.strings_ = n;
+  g_save_result = n;
+  (void)mf;
+  return n;
+}
+void h_setstring_alias(void) {
+  alloc_reset();
+  g_watch_block = 0; g_watch_freed = 0; g_save_calls = 0; g_save_result = 0;
+  struct Allocator *a = verif_allocator(0);
+  g_expected_allocator = a;
+  static RM s_rm;
+  static VD s_v;
+  static char foreign[3];
+  RM *rm = &s_rm;
+  g_the_rm = rm;
+  rm->allocator_ = a; rm->overflowed_ = 0; rm->stringPool_.strings_ = 0;
+  rm->variantPools_.pools_ = rm->variantPools_.preallocatedPools_; rm->variantPools_.count_ = 0;
+  rm->variantPools_.capacity_ = (__typeof__(rm->variantPools_.capacity_))CFG_INITIAL; rm->variantPools_.freeList_ = (__typeof__(rm->variantPools_.freeList_))CFG_NULL_SLOT;
+  unsigned len = in_u8();
+  __CPROVER_assume(len >= 1 && len <= 2);
+  char c0 = in_char(), c1 = in_char();
+  g_alloc_may_fail = 0;
+  Node *n = (Node *)Allocator__allocate(a, DATA_OFF + len + 1); /* the value's own string, one user */
+  g_alloc_may_fail = 1;
+  n->next = 0; n->references = 1; n->length = (__typeof__(n->length))len;
+  n->data[0] = c0; if (len > 1) n->data[1] = c1; n->data[len] = 0;
+  rm->stringPool_.strings_ = n;
+  s_v.type_ = 5; s_v.content_.asOwnedString = n; s_v.next_ = (__typeof__(s_v.next_))CFG_NULL_SLOT;
+  foreign[0] = c0; foreign[1] = c1; foreign[2] = 0;
+  g_watch_block = SCEN_OWN ? n : 0; /* the block that holds the SOURCE bytes, when it is one of the document's */
+  struct JsonStringAdapter val;
+  val.linked_ = 0; /* JsonString::Copied */
+  val._b_SizedRamString.size_ = len;
+#if SCEN_OWN
+  val._b_SizedRamString.str_ = n->data;   /* doc["b"].as<const char*>() */
+#else
+  val._b_SizedRamString.str_ = foreign;   /* the caller's own buffer with the same bytes */
+#endif
+  VariantData__setString_JsonStringAdapter__VariantData_p_JsonStringAdapter_ResourceManager_p(&s_v, val, rm);
+  COVER(len == 2); COVER(len == 1);
+  CHECK(g_save_calls == 1 && g_save_arg._b_SizedRamString.str_ == val._b_SizedRamString.str_ && g_save_arg._b_SizedRamString.size_ == len && !g_save_arg.linked_, "the caller's string is saved once, as given");
+  if (g_save_result) {
+    CHECK(s_v.type_ == 5 && (Node *)s_v.content_.asOwnedString == g_save_result && g_save_result->length == len && g_save_result->data[0] == c0 && (len < 2 || g_save_result->data[1] == c1),
+          "C14: the value holds a copy of the caller's bytes");
+    CHECK(g_live_blocks == 1 && g_dealloc_calls == 1, "C06: the string the value held alone is released with its last user; the new one is the only live block");
+  } else if (!g_watch_freed) {
+    CHECK(s_v.type_ == 0 && rm->overflowed_ && g_live_blocks == 0, "C05: when the copy cannot be allocated the value is null, the failure is reported, nothing leaks");
+  }
+}
+#endif /* U_SETSTRING_ALIAS */
+
+/* =============================================================================================================================
+ * unit facade_poollist_move (class W: the copy of the INITIAL inline entries is a constant-bound loop): MemoryPoolList::
+ * operator=(MemoryPoolList&&).  No library code calls it (ResourceManager has no move operations; JsonDocument moves by swap): it
+ * is reachable only through the explicit instantiation in tu/facade.cpp.  Contract taken from its own precondition
+ * (ARDUINOJSON_ASSERT(count_ == 0): the destination is the cleared list) and from C06 "blocks are owned exactly once". */
+#ifdef U_POOLLIST_MOVE
+void h_list_move_assign(void) {
+  alloc_reset();
+  static PoolList s_dst, s_src;
+  static Pool s_tab[heap_cap_k > CFG_INITIAL ? heap_cap_k : CFG_INITIAL + 1];
+  PoolList *dst = &s_dst, *src = &s_src;
+  /* destination: the cleared list (stale inline entries arbitrary) */
+  for (unsigned i = 0; i < CFG_INITIAL; i++) {
+    dst->preallocatedPools_[i].slots_ = (SlotData *)(uintptr_t)in_u64();
+    dst->preallocatedPools_[i].capacity_ = (__typeof__(dst->preallocatedPools_[i].capacity_))in_u32();
+    dst->preallocatedPools_[i].usage_ = (__typeof__(dst->preallocatedPools_[i].usage_))in_u32();
+  }
+  dst->pools_ = dst->preallocatedPools_; dst->count_ = 0;
+  dst->capacity_ = (__typeof__(dst->capacity_))CFG_INITIAL; dst->freeList_ = (__typeof__(dst->freeList_))CFG_NULL_SLOT;
+  /* source: any list, inline or heap */
+  _Bool heap = in_bool();
+  Pool *tab = heap ? s_tab : src->preallocatedPools_;
+  unsigned cap = heap ? in_u32() : (unsigned)CFG_INITIAL;
+  if (heap) __CPROVER_assume(heap_cap_k > CFG_INITIAL && cap > CFG_INITIAL && cap <= heap_cap_k);
+  unsigned count = in_u32();
+  __CPROVER_assume(count <= cap && count <= MAXPOOLS);
+  for (unsigned i = 0; i < CFG_INITIAL; i++) {
+    tab[i].slots_ = (SlotData *)(uintptr_t)in_u64();
+    tab[i].capacity_ = (__typeof__(tab[i].capacity_))in_u32();
+    tab[i].usage_ = (__typeof__(tab[i].usage_))in_u32();
+  }
+  src->pools_ = tab; src->count_ = (__typeof__(src->count_))count; src->capacity_ = (__typeof__(src->capacity_))cap;
+  src->freeList_ = (__typeof__(src->freeList_))CFG_NULL_SLOT; /* (see the report: the free list is not transferred) */
+  Pool e0[CFG_INITIAL];
+  for (unsigned i = 0; i < CFG_INITIAL; i++) e0[i] = tab[i];
+  PoolList *ret = MemoryPoolList_ResourceManager__SlotData__op_assign__MemoryPoolList_ResourceManager__SlotData_rr(dst, src);
+  COVER(heap && count > CFG_INITIAL); COVER(!heap && count == CFG_INITIAL); COVER(count == 0);
+  CHECK(ret == dst, "operator= returns its object");
+#ifdef CANARY_LIST_MOVE
+  CHECK(dst->count_ == count + (count == 2) && dst->capacity_ == cap, "C04/C06: the pools move with their count and capacity");
+#else
+  CHECK(dst->count_ == count && dst->capacity_ == cap, "C04/C06: the pools move with their count and capacity");
+#endif
+  CHECK(heap ? (dst->pools_ == s_tab) : (dst->pools_ == dst->preallocatedPools_), "a heap table is handed over by pointer, inline entries are copied into the destination's own inline table (no pointer into the source)");
+  for (unsigned i = 0; i < CFG_INITIAL; i++) if (i < count)
+    CHECK(dst->pools_[i].slots_ == e0[i].slots_ && dst->pools_[i].capacity_ == e0[i].capacity_ && dst->pools_[i].usage_ == e0[i].usage_, "C04: every pool entry arrives unchanged at the same index (slot ids keep designating the same slots)");
+  CHECK(src->count_ == 0 && (!heap || src->pools_ == 0), "C06: the blocks are owned exactly once: the source no longer reaches any pool or the heap table");
+  CHECK(g_alloc_calls + g_dealloc_calls + g_realloc_calls == 0, "C06: a move never calls an allocator");
+}
+#endif /* U_POOLLIST_MOVE */
